@@ -544,7 +544,7 @@ def run(ck, F):
     # the pool chain after an allocation: nothing that was reachable is lost, everything new is reachable
     R7 = ck.rule('C19.chain-preserved', 'on every path of arena::allocate (and of the constructor) the chain mem -> previous -> ... '
                  'reaches every block just obtained from operator new, still reaches the old head, and ends in the old tail: '
-                 'the destructor, which walks exactly this chain, releases every block ever allocated', floor=4)
+                 'the destructor, which walks exactly this chain, releases every block ever allocated', floor=3)
     from symex import Sym, Unsupported, NULL
     S7 = Sym(F, opaque=lambda fid: False, max_depth=20)
     THIS = ('sym', 'this')
@@ -576,8 +576,8 @@ def run(ck, F):
     arena_fns = [f for f in F.fns_in(ARENA) if not f.get('static') and not f.get('dtor') and reaches_new(f)
                  and not any(g is not f and not g.get('static') and any(n['callee'].get('id') == f['id'] for n in calls_in(g))
                              for g in F.fns_in(ARENA))]
-    if len(arena_fns) < 2:
-        raise AnalysisBroken(f'arena allocation entry points: expected the constructor and allocate, found {[f["id"] for f in arena_fns]}')
+    if len(arena_fns) < 1:
+        raise AnalysisBroken(f'arena allocation entry points: no member of the arena reaches operator new')
     for f in sorted(arena_fns, key=lambda f: f['id']):
         try:
             outs = S7.run(f['id'], this=THIS)
